@@ -164,10 +164,13 @@ def unify_chunks_expr(*args):
         if i is None or isinstance(a, ArrayBlockwiseDep):
             pass
         else:
+            # An axis of length 1 that is broadcast against a longer one gets a
+            # single chunk; one that meets only axes of length 1 keeps the common
+            # chunks (which may hold zero-size chunks, e.g. (1, 0) after slicing)
             chunks = tuple(
                 (
                     chunkss[j]
-                    if a.shape[n] > 1
+                    if a.shape[n] > 1 or sum(chunkss[j]) == a.shape[n]
                     else (a.shape[n],) if not np.isnan(sum(chunkss[j])) else None
                 )
                 for n, j in enumerate(i)
